@@ -8,6 +8,7 @@ import (
 
 // ---------- helpers ----------
 
+//go:norace
 func (w *world) opsOf(in *inst) []*recOp {
 	var out []*recOp
 	for _, o := range w.recs {
@@ -26,6 +27,7 @@ type decoded struct {
 
 const posMask = (int64(1) << 30) - 1
 
+//go:norace
 func decode(v int64) decoded {
 	p := ((v % (1 << 30)) + (1 << 30)) % (1 << 30)
 	n := p - v
@@ -35,6 +37,7 @@ func decode(v int64) decoded {
 	return decoded{pos: uint64(p), neg: uint64(n >> 30), ok: true}
 }
 
+//go:norace
 func (d decoded) has(o *recOp) bool {
 	if o.neg {
 		return d.neg&(1<<uint(o.bit)) != 0
@@ -42,6 +45,7 @@ func (d decoded) has(o *recOp) bool {
 	return d.pos&(1<<uint(o.bit)) != 0
 }
 
+//go:norace
 func (w *world) collsOf(reader string) []*collection {
 	var out []*collection
 	for _, c := range w.colls {
@@ -53,6 +57,7 @@ func (w *world) collsOf(reader string) []*collection {
 	return out
 }
 
+//go:norace
 func (w *world) viol(props []string, class, sig, format string, a ...any) {
 	for _, p := range props {
 		w.r.Violate(p, class, sig, format, a...)
@@ -60,6 +65,8 @@ func (w *world) viol(props []string, class, sig, format string, a ...any) {
 }
 
 // conservationProps: which properties a conservation failure on this stream is reported under.
+//
+//go:norace
 func (w *world) conservationProps(in *inst, st stream) []string {
 	props := []string{"C02"}
 	if w.limit > 0 || st.keep != nil || st.name != in.name || len(in.streams) > 1 {
@@ -70,6 +77,8 @@ func (w *world) conservationProps(in *inst, st stream) []string {
 
 // contents decodes one collection of one stream: which ops are reported, and under which key.
 // Returns per op the key it was found under ("" if absent) and reports malformed contents.
+//
+//go:norace
 func (w *world) contents(props []string, in *inst, st stream, c *collection, ops []*recOp) map[*recOp]string {
 	found := map[*recOp]string{}
 	pts := c.data[st.name]
@@ -131,6 +140,8 @@ func (w *world) contents(props []string, in *inst, st stream, c *collection, ops
 
 // checkZeroSets: a measurement of value 0 names no bit, but it creates its attribute set: every cumulative
 // collection invoked after it returned reports a point for that set (whose value may well be 0).
+//
+//go:norace
 func (w *world) checkZeroSets() {
 	if w.limit > 0 {
 		return // the set may legitimately have gone to the overflow set
@@ -162,6 +173,8 @@ func (w *world) checkZeroSets() {
 // invoked, and no unregistration of it was invoked before the collection returned - is run by every
 // successful collection of every reader, whatever else is registered or unregistered meanwhile (the
 // statement quantifies over histories interleaving callback registration/unregistration and collections).
+//
+//go:norace
 func (w *world) checkCallbacksRan() {
 	for _, c := range w.colls {
 		if c.err != nil || c.ret == 0 || c.how == "export" && c.observed == nil {
@@ -187,6 +200,7 @@ func (w *world) checkCallbacksRan() {
 	}
 }
 
+//go:norace
 func (w *world) oracleC02(usePeriodic bool) {
 	w.checkZeroSets()
 	w.checkCallbacksRan()
@@ -331,6 +345,7 @@ func (w *world) oracleC02(usePeriodic bool) {
 
 // ---------- C08 ----------
 
+//go:norace
 func (w *world) jointPairs() [][2]*collection {
 	byJ := map[int][2]*collection{}
 	maxJ := 0
@@ -358,6 +373,7 @@ func (w *world) jointPairs() [][2]*collection {
 	return out
 }
 
+//go:norace
 func (w *world) oracleC08() {
 	const prop = "C08"
 	dColls := w.collsOf("D")
@@ -553,6 +569,7 @@ func (w *world) oracleC08() {
 	}
 }
 
+//go:norace
 func (w *world) concurrentD(d []*collection, i int) bool {
 	for j, o := range d {
 		if j != i && o.inv < d[i].ret && d[i].inv < o.ret {
@@ -567,6 +584,8 @@ func (w *world) concurrentD(d []*collection, i int) bool {
 // reader certainly between it and c. The observations of an abandoned collection stay in the precomputed
 // aggregator (known finding C08-K1): they distort the next successful collection, and through the
 // remembered last value of a delta sum the one after it, so depth is 1 for cumulative and 2 for delta.
+//
+//go:norace
 func (w *world) abandonedBefore(c *collection, idx, depth int) bool {
 	for _, a := range w.colls {
 		if a == c || a.reader != c.reader || a.err == nil || a.ret == 0 || a.inv > c.inv || len(a.observed[idx]) == 0 {
@@ -588,6 +607,8 @@ func (w *world) abandonedBefore(c *collection, idx, depth int) bool {
 // limited maps what callbacks observed in one collection to what a stream under the cardinality limit
 // holds: the first limit-1 observed sets keep their identity, all later ones are aggregated under the
 // overflow set (summed; for a gauge the last one wins).
+//
+//go:norace
 func (w *world) limited(in *inst, obs map[string]int64) map[string]int64 {
 	if w.limit == 0 || obs == nil {
 		return obs
@@ -613,6 +634,7 @@ func (w *world) limited(in *inst, obs map[string]int64) map[string]int64 {
 	return out
 }
 
+//go:norace
 func (w *world) checkAsync(jd, jc *collection, dColls []*collection) {
 	props := []string{"C08"}
 	lim := ""
@@ -693,6 +715,8 @@ func (w *world) checkAsync(jd, jc *collection, dColls []*collection) {
 
 // checkGauge: at a joint point the delta reader reports, per set, the last value recorded since its
 // previous collection.
+//
+//go:norace
 func (w *world) checkGauge(prop string, jd *collection, dColls []*collection) {
 	if w.limit > 0 {
 		return
@@ -775,6 +799,7 @@ func (w *world) checkGauge(prop string, jd *collection, dColls []*collection) {
 	}
 }
 
+//go:norace
 func sameKeys(a map[string]point, b map[string]int64) bool {
 	if len(a) != len(b) {
 		return false
@@ -787,6 +812,7 @@ func sameKeys(a map[string]point, b map[string]int64) bool {
 	return true
 }
 
+//go:norace
 func keysOf(m map[string]point) []string {
 	var out []string
 	for k := range m {
@@ -796,6 +822,7 @@ func keysOf(m map[string]point) []string {
 	return out
 }
 
+//go:norace
 func keysOfI(m map[string]int64) []string {
 	var out []string
 	for k := range m {
@@ -807,6 +834,7 @@ func keysOfI(m map[string]int64) []string {
 
 // ---------- C12 ----------
 
+//go:norace
 func (w *world) oracleC12() {
 	const prop = "C12"
 	if w.limit == 0 {
@@ -911,6 +939,8 @@ func (w *world) oracleC12() {
 // checkExpo compares a cumulative exponential-histogram point with the fold of the delta points
 // reported so far, after rescaling every side to the coarsest scale involved (an index i at scale s is
 // index i>>d at scale s-d), and checks the point's internal consistency.
+//
+//go:norace
 func (w *world) checkExpo(prop, where, key string, cum point, deltas []point, zero uint64) {
 	minScale := cum.scale
 	for _, d := range deltas {
